@@ -17,7 +17,7 @@ RULE = ('Plans as in C01 (1..3 inputs, all standard kinds, 11 networks); per inp
         'amount (segwit), signature bit flip / signature of another digest / signature by an outsider key, one '
         'signature removed (optionally padded with a duplicate). Medium: live object or serialised bytes re-parsed '
         '(amounts and p2pk keys re-supplied). Non-trivial = mu[tampers include the two version attributes separately; plans may pass the prevout scriptPubKey as locking_script; raw output scripts with non-minimal pushes] ltisig with m<n and a signer order different from '
-        'key order or a partial history, or any tampered case the reference rejects; distinct by case hash. [tampers also: a null-outpoint input appended, the coinbase attribute set together with a changed output value, the hash type byte of one signature changed] [resign_one: after a digest-relevant tamper one input is signed again, verify() must agree with the interpreter]')
+        'key order or a partial history, or any tampered case the reference rejects; distinct by case hash. [tampers also: a null-outpoint input appended, the coinbase attribute set together with a changed output value, the hash type byte of one signature changed] [resign_one: after a digest-relevant tamper one input is signed again, verify() must agree with the interpreter] [hts: reference-signed transactions with a hash type per signature, from bytes or as signature objects; cross: signatures over another input\'s digest must not verify]')
 ASSUMPTIONS = ['tamper operators are a finite single-field family', 'ref/interp.py consensus rules (no policy)',
                'only listed keys: a P2PKH input built from an address hash and signed with an unrelated key is '
                'not asserted (the library cannot know the prevout)']
